@@ -1232,7 +1232,7 @@ class RunningOrderReplace(RunningOrder):
         """
         print("REPLACE RO:")
         for tag in self.base_tag:
-            if tag.text.strip():
+            if tag.text and tag.text.strip():
                 print("", tag.tag + ":", tag.text.strip())
 
 
@@ -1729,7 +1729,7 @@ class EAItemInsert(ElementAction):
         Print an outline of the key file contents
         """
         print("IN STORY:", self.story.id)
-        print("  BEFORE ITEM:", self.story.id)
+        print("  BEFORE ITEM:", self.item.id)
         for item in self.items:
             print("    INSERT ITEM:", item.id)
 
@@ -1796,9 +1796,8 @@ class EAStorySwap(ElementAction):
         """
         Print an outline of the key file contents
         """
-        story1, story2 = self.stories
-        print("SWAP STORY:", story1.id)
-        print("WITH STORY:", story2.id)
+        for i, story in enumerate(self.stories):
+            print("SWAP STORY:" if i == 0 else "WITH STORY:", story.id)
 
 
 class EAItemSwap(ElementAction):
@@ -1874,9 +1873,8 @@ class EAItemSwap(ElementAction):
         Print an outline of the key file contents
         """
         print("IN STORY:", self.story.id)
-        item1, item2 = self.items
-        print("  SWAP ITEM:", item1.id)
-        print("  WITH ITEM:", item2.id)
+        for i, item in enumerate(self.items):
+            print("  SWAP ITEM:" if i == 0 else "  WITH ITEM:", item.id)
 
 
 class EAStoryMove(ElementAction):
